@@ -38,7 +38,7 @@ def drop(d):
 
 
 def do_import(prop, k):
-    src = Path("/tmp/seed") / prop
+    src = Path(os.environ.get("SEED_SRC", "/tmp/seed")) / prop
     patch, demo = src / f"mutant_{k}.diff", src / f"demo_{k}.py"
     if not patch.exists() or not demo.exists():
         raise SystemExit(f"missing {patch} or {demo}")
@@ -57,12 +57,12 @@ def do_import(prop, k):
         print(f"{prop} m{k}: demo without={rc0} with={rc1} suite={'ok' if suite_ok else outt.strip()[-120:]} -> {'KEEP' if ok else 'REJECT'}")
         if not ok:
             return False
-        dst = SEEDED / f"{prop}-m{k}"
+        dst = SEEDED / f"{prop}-{os.environ.get('SEED_TAG', 'm')}{k}"
         dst.mkdir(parents=True, exist_ok=True)
         shutil.copy(patch, dst / "patch.diff")
         shutil.copy(demo, dst / "demo.py")
         notes = (src / "notes.md").read_text() if (src / "notes.md").exists() else ""
-        meta = {"property": prop, "origin": f"fresh sub-agent given only the property text (worktree /tmp/seed/{prop})",
+        meta = {"property": prop, "origin": f"fresh sub-agent given only the property text (worktree {src})",
                 "needs_to_manifest": "see notes", "notes": notes,
                 "confirmed": {"demo_exit_without_change": rc0, "demo_exit_with_change": rc1, "test_suite_with_change": outt.strip().splitlines()[-1] if outt.strip() else "",
                               "commands": [f"git apply patch.diff (scratch worktree of /repo HEAD)", f"{PY} demo.py", f"{PY} -m pytest -q -p no:cacheprovider --timeout=900"]}}
